@@ -52,7 +52,7 @@ def main():
         shutil.copy(os.path.join(src, "demo_test.go"), demo_dst)
         demo_cmd = meta["demo_cmd"]
         # normalise the command to run inside the worktree
-        for pre in ("/tmp/seed-%s" % name.split("-")[0],):
+        for pre in ("/tmp/seed-%s" % name.split("-")[0], "/tmp/seed2-%s" % name.split("-")[0], "/tmp/seed3-%s" % name.split("-")[0]):
             demo_cmd = demo_cmd.replace(pre, wt)
         if "-count" not in demo_cmd:
             demo_cmd = demo_cmd.replace("go test", "go test -count=1", 1)
